@@ -552,6 +552,16 @@ impl Monitor for C13 {
                     }
                 }
                 eval(rep, t, &full, o, full.len(), stale, 0xf);
+                // scan positions at the top of the usize range (nothing is there: value 0, offset unchanged),
+                // with the data fully buffered so that a fast path would be eligible by amount
+                if rng.chance(1, 16) {
+                    for k in [0usize, 1, 3, 7, 8, 9, 15, 16] {
+                        for state in [0u8, 2, 3] {
+                            eval_state(rep, t, &full, usize::MAX - k, full.len(), stale, 0xf, state);
+                        }
+                        rep.inc("evals_at_offsets_near_usize_max");
+                    }
+                }
                 // the other reader states: end of input already seen / everything from one read
                 for state in 1..4u8 {
                     let b = if state == 1 { rng.usize(bmax + 1) } else { 0 };
